@@ -26,7 +26,7 @@ LINE_FUNCS = ['TT.__matmul__', 'dense_matvec', 'TT.t', 'TT.full']
 DT = ['f64', 'f64', 'f32', 'c128']
 OPS = ['Ax', 'xA', 'AB', 'Adense', 't', 'add', 'sub', 'mul', 'full', 'neg']
 SC_OPS = ['add', 'radd', 'sub', 'rsub', 'mul', 'rmul', 'div']
-SC_KINDS = ['int', 'float', 'complex', 'npf64', 't0', 't1', 'zero']
+SC_KINDS = ['int', 'float', 'complex', 'npf64', 't0', 't1', 'zero', 'float_nr', 'npf64_nr', 't0_nr']
 
 
 def three_distinct(rng, d, pool=(1, 2, 3, 4, 5)):
@@ -199,18 +199,24 @@ def run_scalar(case, ctx, g):
     dt = dn.dtype_of(case['dtype'])
     A = gens.make_tt(case['N'], case['R'], dt, case['vals'], g, M=case['M'])
     op, kind = case['op'], case['kind']
-    s, sr = scalar_of(kind, dt), scalar_ref(kind)
+    s = scalar_of(kind, dt)
+    sr = scalar_ref(kind, s)
     fns = {'add': lambda a, b: a + b, 'radd': lambda a, b: b + a, 'sub': lambda a, b: a - b, 'rsub': lambda a, b: b - a,
            'mul': lambda a, b: a * b, 'rmul': lambda a, b: b * a, 'div': lambda a, b: a / b}
-    skind = 'tensor-scalar' if kind in ('t0', 't1') else ('numpy-scalar' if kind.startswith('np') else 'python-scalar')
+    skind = 'tensor-scalar' if kind in ('t0', 't1', 't0_nr') else ('numpy-scalar' if kind.startswith('np') else 'python-scalar')
     key = 'scalar/%s/%s' % (op, skind)
     what = 'A %s scalar(%s=%r) M=%s N=%s R=%s %s' % (op, kind, sr, case['M'], case['N'], case['R'], case['dtype'])
     ctx.count('branch:scalar')
     dA = dn.D(A)
     ref = fns[op](dA, sr)
-    exact = gens.exact_ok(dt, (gens.abs_bound(A) + 4) * 4) and not (op == 'div' and abs(sr) not in (0.25, 0.5, 1, 2, 4))
+    exact = gens.exact_ok(dt, (gens.abs_bound(A) + 4) * 4) and not (op == 'div' and abs(sr) not in (0.25, 0.5, 1, 2, 4)) and not kind.endswith('_nr')
     srep = dn.s_rep(A)
     res = ctx.lib('TTM.%s.scalar' % op, fns[op], A, s)
+    try:
+        if not dn.bit_equal(dn.D(A), dA):
+            ctx.viol(key + '/clause=operand-changed', '%s: the TT operand no longer has the value it had before the call' % what)
+    except ValueError:
+        ctx.viol(key + '/clause=operand-changed', '%s: the TT operand is ill-formed after the call' % what)
     if not expect_tt(ctx, key, res, what):
         return
     try:
